@@ -704,7 +704,11 @@ func (a *loopAn) linkedWalk(fs *ast.ForStmt) string {
 	xv := a.obj(xid)
 	// every path through the body assigns x = x.F exactly
 	okAssign := false
-	for _, s := range fs.Body.List {
+	steps := append([]ast.Stmt{}, fs.Body.List...)
+	if fs.Post != nil {
+		steps = append(steps, fs.Post) // for x := s; x.F != nil; x = x.F { … }: the step in the post statement
+	}
+	for _, s := range steps {
 		if as, ok := s.(*ast.AssignStmt); ok && as.Tok == token.ASSIGN && len(as.Lhs) == 1 && len(as.Rhs) == 1 {
 			if l, ok := as.Lhs[0].(*ast.Ident); ok && a.obj(l) == xv {
 				if rs, ok := as.Rhs[0].(*ast.SelectorExpr); ok && rs.Sel.Name == sel.Sel.Name {
